@@ -491,6 +491,7 @@ func (e *Exec) decide(conds []*Term) int {
 		}
 	}
 	e.forks++
+	e.noteForkSite()
 	modelPick := -1
 	if e.ensureModel() {
 		cache := map[*Term]uint64{}
@@ -564,6 +565,7 @@ func (e *Exec) concretize(t *Term) uint64 {
 			continue
 		}
 		e.forks++
+		e.noteForkSite()
 		if !e.ensureModel() {
 			e.endPath("unsupported", "cannot concretise without a model (solver unknown)")
 		}
@@ -608,4 +610,17 @@ func (e *Exec) modelSatisfiesPC(m Model) bool {
 		}
 	}
 	return true
+}
+
+func (e *Exec) noteForkSite() {
+	if e.forkSites == nil || e.cur == nil || len(e.cur.frames) == 0 {
+		return
+	}
+	fr := e.cur.frames[len(e.cur.frames)-1]
+	pos := ""
+	if fr.ip < len(fr.block.Instrs) {
+		p := e.P.prog.Fset.Position(fr.block.Instrs[fr.ip].Pos())
+		pos = fmt.Sprintf(":%d", p.Line)
+	}
+	e.forkSites[fr.fn.String()+pos]++
 }
